@@ -781,6 +781,14 @@ func runC20(c *Ctx) {
 			}
 		})
 	}
+	// Z5: a reply the receiver cannot decode ends recv; the client then "fails cleanly as after a connection loss",
+	// which is the broadcastErr sweep (shared with C04.R2): every outstanding call is failed exactly once and a
+	// request whose write fails afterwards cannot block on its already notified channel
+	if bcast := p.Func("(*clientConn).broadcastErr"); bcast == nil {
+		c.missing("Z5", "(*clientConn).broadcastErr")
+	} else {
+		checkBroadcastErr(c, "Z5", bcast)
+	}
 }
 
 // clientAxioms adds: data returned by clientConn.sendPacket with a nil error, and result.data of a
